@@ -103,20 +103,25 @@ void HttpServer::serve(Socket client)
 				if (!response.hasHeader("Cache-Control"))
 					response.setHeader("Cache-Control", "max-age=60, public");
 				
+				bool ranged = false;
 				if (request.hasHeader("Range"))
 				{
 					String range = request.header("Range");
 					if (range.startsWith("bytes=") && !range.contains(',')) // no multiple ranges
 					{
 						Array<String> parts = range.substr(6).split('-');
-						int begin = parts[0];
-						int end = parts[1];
-						response.setCode(206);
-						response.setHeader("Content-Range", "+");
-						response.putFile(file.path(), begin, end);
+						if (parts.length() == 2)
+						{
+							int begin = parts[0];
+							int end = parts[1];
+							response.setCode(206);
+							response.setHeader("Content-Range", "+");
+							response.putFile(file.path(), begin, end);
+							ranged = true;
+						}
 					}
 				}
-				else
+				if (!ranged) // no Range, or one we do not support: send the whole file
 					response.putFile(file.path());
 
 				if (response.hasHeader("Content-Range") && response.header("Content-Range").contains('*'))
